@@ -24,6 +24,7 @@ import Proofs.StructEdit
 import Proofs.Structure2
 import Props.C18
 import Proofs.SplitSuccess
+import Proofs.JoinSuccess
 namespace PM.C12
 open PM
 
@@ -530,17 +531,18 @@ example : dropPoint exSchema exDoc 2 ⟨[.elem 1 [] [] [.elem 2 [] [] []]], 0, 0
 example : canSplit exSchema exDoc 3 0 = none := by rfl
 example : canJoin exSchema exDoc 9 = none := by rfl
 
-/-! ### not stated: `canJoin_join_applies`
+/-! ### an approved join applies, given `check_join`'s test
 
-    The stretch statement
+    The unguarded statement
       `canJoin S doc pos = some (some true) → joinStep pos 1 = .ok st → ∃ doc', S.apply st doc = .ok doc'`
     is **false** for arbitrary schemas, for the model and for the code alike: `joinable` asks
     `a.can_append(b)` (does `b`'s content continue `a`'s), the join itself asks `check_join`
     (`b.type.compatible_content(a.type)`: do the two *start* states share an edge).  In the schema
     `doc: A B*`, `A: x y*`, `B: y+` and the document `doc(A(x), B(y))`, `can_join(doc, 3)` and `join_point(doc, 3)`
-    approve and `Transform.join(3)` raises `TransformError("Cannot join B onto A")`.  A conditional version
-    needs `compatibleContent`, `TextStable` (the join merges adjacent text nodes, `can_append` does not) and the
-    success characterisation of `replace`; it was not attempted. -/
+    approve and `Transform.join(3)` raises `TransformError("Cannot join B onto A")` (`cexSchema` below).
+    `joinGuard` (PM/Structure2.lean) is that test.  The second hypothesis is `TextStable`: the join merges
+    adjacent text nodes, `can_append` looks at the unmerged child list (`joinTsSchema` below: content
+    `(text|image) (text|image) (text image)?`, `A(em("a"), "b")` joined with `B("c", image)`). -/
 
 private def cexNT (name : String) (leaf : Bool) (dfa : Array DfaState) : NodeType :=
   { name := name, isText := false, isInline := false, isLeaf := leaf, isAtom := leaf, inlineContent := false,
@@ -641,5 +643,97 @@ example : splitGuard splitCexSchema splitCexDoc 1 = true ∧ canSplit splitCexSc
 example : C01.Valid exSchema exDoc ∧ fnorm exDoc.kids = true ∧ pairAligned exDoc 3 = true ∧
     splitGuard exSchema exDoc 3 = true ∧ canSplit exSchema exDoc 3 2 = some true := by
   exact ⟨rfl, rfl, rfl, rfl, rfl⟩
+
+/-- **`can_join` approves ∧ `joinGuard` (`check_join`'s `compatible_content`) ∧ `TextStable` ⇒ `join`
+    succeeds** with a schema-valid document that keeps the text and leaf nodes.  (The approval implies that
+    `pos` is a child boundary between two nodes, so no alignment hypothesis is needed.) -/
+theorem canJoin_join_applies (S : Schema) (hts : C01.TextStable S) (doc : Node) (pos : Nat) (st : Step)
+    (hv : C01.Valid S doc) (hn : fnorm doc.kids = true)
+    (hg : joinGuard S doc pos = true)
+    (hc : canJoin S doc pos = some (some true)) (hb : joinStep pos 1 = .ok st) :
+    ∃ doc', S.apply st doc = .ok doc' ∧ C01.Valid S doc' ∧
+      (ftoks doc'.kids).filter Tok.isContent = (ftoks doc.kids).filter Tok.isContent := by
+  unfold canJoin at hc
+  cases hr : doc.resolve pos with
+  | none => simp [hr] at hc
+  | some r =>
+    simp only [hr] at hc
+    have R := resolve_resolved hr
+    have hg' : joinGuardR S r = true := by simpa [joinGuard, hr] using hg
+    have hpay : ∀ f t, C01.PayloadValid S doc (.replace f t Slice.empty true) := by
+      intro f t
+      simp [C01.PayloadValid, Slice.empty, openValid, rightOpenValid]
+    cases doc with
+    | text s m =>
+      exfalso
+      obtain ⟨_, _, _, _, _, _, _, ha, _⟩ := canJoinR_facts S R hc
+      have hd := R.depth_eq
+      simp only [Node.kids, depthAt] at hd
+      simp [RPos.parent, hd, R.node_zero, Node.kids] at ha
+    | leaf t a m =>
+      exfalso
+      obtain ⟨_, _, _, _, _, _, _, ha, _⟩ := canJoinR_facts S R hc
+      have hd := R.depth_eq
+      simp only [Node.kids, depthAt] at hd
+      simp [RPos.parent, hd, R.node_zero, Node.kids] at ha
+    | elem ty0 a0 m0 K =>
+      obtain ⟨doc', hap⟩ := join_applies S hts ty0 a0 m0 K pos r st hr hv hn hg' hc hb
+      have hst : ∃ f t, st = .replace f t Slice.empty true := by
+        unfold joinStep at hb
+        split at hb
+        · simp at hb
+        · simp only [Except.ok.injEq] at hb; exact ⟨_, _, hb.symm⟩
+      obtain ⟨f, t, rfl⟩ := hst
+      exact ⟨doc', hap, C01.apply_valid S _ _ doc' hv (hpay f t) hap, join_keeps_content S _ doc' pos 1 _ hb hap⟩
+
+/-- `TextStable` can be checked on the automaton tables (`textStableC`, PM/Structure2.lean) -/
+theorem textStable_of_C (S : Schema) (h : textStableC S = true) : C01.TextStable S :=
+  textStableP_of_C S h
+
+/-- `exSchema` is `TextStable` -/
+private theorem ex_stable : C01.TextStable exSchema := textStable_of_C exSchema (by decide)
+
+/-- a non-trivial instance of all hypotheses: joining the two blockquotes of `exDoc2` -/
+example : ∃ doc', exSchema.apply (.replace 4 6 Slice.empty true) exDoc2 = .ok doc' ∧ C01.Valid exSchema doc' ∧
+    (ftoks doc'.kids).filter Tok.isContent = (ftoks exDoc2.kids).filter Tok.isContent :=
+  canJoin_join_applies exSchema ex_stable exDoc2 5 _ rfl rfl rfl rfl rfl
+
+/-- in the counterexample above the guard does not hold -/
+example : joinGuard cexSchema cexDoc 3 = false := by rfl
+
+/-- `TextStable` is needed: `doc: A B?`, `A: (text|image) (text|image) (text image)?`, `B: (text|image) image`;
+    `A(em("a"), "b")` and `B("c", image)`: `can_append` accepts `text text text image`, the join merges `"b"`
+    and `"c"` and `A` refuses `text text image` (`TransformError('Invalid content for node A')`) -/
+private def joinTsSchema : Schema :=
+  { nodes := #[cexNT "doc" false #[⟨false, [(1, 1)]⟩, ⟨true, [(2, 2)]⟩, ⟨true, []⟩],
+      cexNT "A" false #[⟨false, [(3, 1), (4, 1)]⟩, ⟨false, [(3, 2), (4, 2)]⟩, ⟨true, [(3, 3)]⟩,
+        ⟨false, [(4, 4)]⟩, ⟨true, []⟩],
+      cexNT "B" false #[⟨false, [(3, 1), (4, 1)]⟩, ⟨false, [(4, 2)]⟩, ⟨true, []⟩],
+      { cexNT "text" true #[⟨true, []⟩] with isText := true, isInline := true },
+      { cexNT "image" true #[⟨true, []⟩] with isInline := true }],
+    marks := #[⟨"em", [0], true, []⟩], top := 0, textTy := 3 }
+
+private def joinTsDoc : Node :=
+  .elem 0 [] [] [.elem 1 [] [] [.text [97] [⟨0, []⟩], .text [98] []], .elem 2 [] [] [.text [99] [], .leaf 4 [] []]]
+
+example : C01.Valid joinTsSchema joinTsDoc := by rfl
+example : fnorm joinTsDoc.kids = true := by rfl
+example : canJoin joinTsSchema joinTsDoc 4 = some (some true) := by rfl
+example : joinGuard joinTsSchema joinTsDoc 4 = true := by rfl
+example : joinStep 4 1 = .ok (.replace 3 5 Slice.empty true) := by rfl
+example : ¬ C01.TextStable joinTsSchema := by
+  intro h
+  have := h 1 0 1 2 (by rfl) (by rfl)
+  omega
+example : joinTsSchema.apply (.replace 3 5 Slice.empty true) joinTsDoc = .error .failed := by
+  have hc : contentBetween joinTsDoc 3 5 = some false := by
+    apply contentBetween_closesOpens _ _ _ (by rfl) (by omega) (by decide)
+    rfl
+  have hv : joinTsSchema.validContent 1 [.text [97] [⟨0, []⟩], .text [98, 99] [], .leaf 4 [] []] = false := by decide
+  unfold joinTsDoc at hc
+  simp [Schema.apply, hc, Schema.fromReplace, Schema.replace, joinTsDoc, replaceKids, Slice.empty,
+    inRange, depthAt, Slice.wf, spineL, spineR, outer, atLevel, twoWay,
+    splitRight, Schema.close, fromArray, addNodes, addNode, hv,
+    Except.map, Schema.compatibleContent]
 
 end PM.C12
